@@ -37,6 +37,7 @@ import (
 	"github.com/tikv/pd/server/kv"
 	"github.com/tikv/pd/tests"
 	"go.etcd.io/etcd/clientv3"
+	"google.golang.org/grpc"
 	"google.golang.org/grpc/codes"
 	"google.golang.org/grpc/status"
 	"pdverif/vkit"
@@ -236,6 +237,9 @@ type liveFix struct {
 	curDir  string
 	cases   int
 	broken  bool
+	// used by the "refusal" property (refusal_test.go)
+	conn     *grpc.ClientConn
+	refReady bool
 }
 
 var (
@@ -359,6 +363,10 @@ func (f *liveFix) waitLeader(d time.Duration) bool {
 
 func stopLive(f *liveFix) {
 	f.kvw.set(nil)
+	if f.conn != nil {
+		f.conn.Close()
+		f.conn = nil
+	}
 	done := make(chan struct{})
 	go func() {
 		defer close(done)
@@ -432,6 +440,7 @@ func (f *liveFix) snapshot() (map[string]string, map[string]string, error) {
 // reset puts the server back into the never-bootstrapped state.
 func (f *liveFix) reset() error {
 	f.kvw.set(nil)
+	f.refReady = false
 	if !f.waitLeader(30 * time.Second) {
 		return fmt.Errorf("server is not leader")
 	}
